@@ -254,6 +254,23 @@ pub fn gen_c13(thorough: bool, seed: u64) -> Vec<Episode> {
                             json!({"op": "t_bin", "g": "xor", "f": "val_val", "a": 0, "b": 1, "d": 2}),
                             json!({"op": "t_info", "a": 2})]));
     }
+    // equality must be semantic for every one of the 32 variables: a cube against the same cube
+    // with one variable toggled, against its complement, and the single literals against constants
+    for i in 0..32usize {
+        let base = r.gen::<u32>() as usize & r.gen::<u32>() as usize;
+        let mut ops = vec![mk_ecube(0, base, i % 2 == 0), mk_ecube(1, base ^ (1 << i), i % 2 == 0), mk_ecube(2, base, i % 2 == 1),
+                           json!({"op": "t_mk", "k": "ecube", "c": "nth_var", "d": 3, "i": i}),
+                           json!({"op": "t_mk", "k": "ecube", "c": "nth_var_inv", "d": 4, "i": i}),
+                           json!({"op": "t_mk", "k": "ecube", "c": "zero", "d": 5}),
+                           json!({"op": "t_mk", "k": "ecube", "c": "one", "d": 6})];
+        for (a, b) in [(0, 1), (1, 0), (0, 2), (0, 0), (3, 5), (4, 6), (3, 4), (5, 6)] {
+            ops.push(json!({"op": "t_rel", "f": "eq", "a": a, "b": b}));
+        }
+        ops.push(json!({"op": "t_bin", "g": "xor", "f": "ref_ref", "a": 0, "b": 3, "d": 7}));
+        ops.push(json!({"op": "t_rel", "f": "eq", "a": 7, "b": 1}));
+        ops.push(json!({"op": "t_rel", "f": "eq", "a": 7, "b": 0}));
+        eps.push(ep(12, ops));
+    }
     // random exclusive cubes over 32 variables
     for k in 0..(if thorough { 2000 } else { 200 }) {
         let va = r.gen::<u32>() as usize & r.gen::<u32>() as usize;
@@ -577,6 +594,7 @@ pub fn gen_c15(thorough: bool, seed: u64) -> Vec<Episode> {
                                 json!({"op": "t_tolut", "a": 0, "f": "ref"}), json!({"op": "t_info", "a": 0})]));
         }
     }
+    c15_long_lists(thorough, &mut r, &mut eps);
     // operators on random cube lists
     for n in 0..=8usize {
         for k in 0..(if thorough { 80 } else { 12 }) {
@@ -602,6 +620,41 @@ pub fn gen_c15(thorough: bool, seed: u64) -> Vec<Episode> {
         }
     }
     eps
+}
+
+/// (appended to C15 by gen_c15): long cube lists with many repeated cubes
+fn c15_long_lists(thorough: bool, r: &mut StdRng, eps: &mut Vec<Episode>) {
+    for n in 0..=3usize {
+        for round in 0..(if thorough { 12 } else { 3 }) {
+            let pool: Vec<(usize, usize)> = (0..3).map(|_| if n == 0 { (0, 0) } else { random_cube(r, n, 2) }).collect();
+            let len_a = 22 + 5 * round;
+            let la: Vec<(usize, usize)> = (0..len_a).map(|k| pool[k % pool.len().min(1 + round % 3)]).collect();
+            let lb: Vec<(usize, usize)> = (0..40).map(|_| if n == 0 { (0, 0) } else { random_cube(r, n, 2) }).collect();
+            let mut ops = vec![sop_mk(0, n, &la, "esop"), sop_mk(1, n, &lb, "esop")];
+            // a ^ a, (a ^ a) ^ a, b ^ b', accumulations crossing any internal size threshold
+            ops.push(json!({"op": "t_bin", "g": "xor", "f": FORMS[round % 4], "a": 0, "b": 0, "d": 2}));
+            ops.push(json!({"op": "t_info", "a": 2}));
+            ops.push(json!({"op": "t_bin", "g": "xor", "f": FORMS[(round + 1) % 4], "a": 2, "b": 0, "d": 3}));
+            ops.push(json!({"op": "t_info", "a": 3}));
+            ops.push(json!({"op": "t_bin", "g": "xor", "f": FORMS[(round + 2) % 4], "a": 3, "b": 1, "d": 4}));
+            ops.push(json!({"op": "t_bin", "g": "xor", "f": FORMS[(round + 3) % 4], "a": 1, "b": 1, "d": 5}));
+            ops.push(json!({"op": "t_info", "a": 5}));
+            ops.push(json!({"op": "t_not", "f": "ref", "a": 4, "d": 6}));
+            ops.push(json!({"op": "t_tolut", "a": 6, "f": "ref"}));
+            eps.push(ep(n, ops));
+        }
+    }
+    // accumulating Reed-Muller forms of several functions
+    for n in [4usize, 5, 6] {
+        let mut ops = vec![json!({"op": "t_mk", "k": "esop", "c": "zero", "d": 0, "n": n})];
+        for k in 0..(if thorough { 8 } else { 5 }) {
+            ops.push(json!({"op": "t_mk", "k": "esop", "c": "from_lut_ref", "d": 1, "n": n, "on": random_on(n, r)}));
+            ops.push(json!({"op": "t_bin", "g": "xor", "f": FORMS[k % 4], "a": 0, "b": 1, "d": 0}));
+            ops.push(json!({"op": "t_info", "a": 0}));
+        }
+        ops.push(json!({"op": "t_tolut", "a": 0, "f": "ref"}));
+        eps.push(ep(n, ops));
+    }
 }
 
 /// C16: Display of cubes and forms
@@ -676,6 +729,43 @@ pub fn gen_c16(thorough: bool, seed: u64) -> Vec<Episode> {
         if !ops.is_empty() {
             eps.push(ep(n, ops));
         }
+    }
+    // cubes and exclusive cubes mentioning every variable (the longest texts): minterm-like cubes with
+    // at most two positive or at most two negative literals, for 10..12 variables
+    for n in [10usize, 11, 12] {
+        let full = dom(n) - 1;
+        let mut pos_sets: Vec<usize> = vec![0, full];
+        for i in 0..n {
+            pos_sets.push(1 << i);
+            pos_sets.push(full ^ (1 << i));
+            for j in 0..i {
+                pos_sets.push((1 << i) | (1 << j));
+                if (i + j) % 3 == 0 || thorough {
+                    pos_sets.push(full ^ ((1 << i) | (1 << j)));
+                }
+            }
+        }
+        let mut ops = Vec::new();
+        for p in pos_sets {
+            ops.push(mk_cube(0, p, full ^ p));
+            ops.push(json!({"op": "t_text", "a": 0, "n": n}));
+            if ops.len() >= 60 {
+                eps.push(ep(n, std::mem::take(&mut ops)));
+            }
+        }
+        for x in [false, true] {
+            ops.push(mk_ecube(1, full, x));
+            ops.push(json!({"op": "t_text", "a": 1, "n": n}));
+            ops.push(mk_ecube(1, full ^ 1, x));
+            ops.push(json!({"op": "t_text", "a": 1, "n": n}));
+        }
+        // a Sop / Esop made of long cubes
+        let cl: Vec<(usize, usize)> = (0..3).map(|k| { let p = (r.gen::<usize>() & full) | (1 << (n - 1 - k)); (p & !(1 << k), (full ^ p) | (1 << k)) }).collect();
+        ops.push(sop_mk(2, n, &cl, "sop"));
+        ops.push(json!({"op": "t_text", "a": 2, "n": n}));
+        ops.push(sop_mk(3, n, &cl, "esop"));
+        ops.push(json!({"op": "t_text", "a": 3, "n": n}));
+        eps.push(ep(n, ops));
     }
     // random forms up to 12 variables (two-digit indices)
     for n in [5usize, 8, 10, 11, 12] {
